@@ -911,7 +911,7 @@ LIT_ROWS = {   # suffix class -> (decimal list, non-decimal list)   C11 6.4.4.1p
 }
 SUFFIXES = {'': '', 'u': 'u', 'U': 'u', 'l': 'l', 'L': 'l', 'ul': 'ul', 'UL': 'ul', 'uL': 'ul', 'Ul': 'ul', 'lu': 'ul', 'LU': 'ul', 'lU': 'ul',
             'Lu': 'ul', 'll': 'll', 'LL': 'll', 'ull': 'ull', 'ULL': 'ull', 'uLL': 'ull', 'Ull': 'ull', 'llu': 'ull', 'LLU': 'ull', 'llU': 'ull', 'LLu': 'ull'}
-BAD_SUFFIXES = ['uu', 'lul', 'lll', 'f', 'i', 'ulu', 'x', 'lull', 'ullu']
+BAD_SUFFIXES = ['uu', 'lul', 'lll', 'f', 'i', 'ulu', 'x', 'lull', 'ullu', 'lL', 'Ll', 'ulL', 'uLl', 'lLu', 'LlU']      # the two letters of `ll` / `LL` have the same case (6.4.4.1p1)
 MAXV = {'int': 2**31 - 1, 'uint': 2**32 - 1, 'long': 2**63 - 1, 'ulong': 2**64 - 1, 'llong': 2**63 - 1, 'ullong': 2**64 - 1}
 
 
@@ -1016,6 +1016,11 @@ def rule_decay(chk, prog, tier):
 
 # ------------------------------------------------------------------ C05.d2 literal classification in primaryexpr
 
+def eai_errno(it):
+    import eai
+    return eai.m_errno_location(it, [], None)
+
+
 def rule_literal_base(chk, prog, tier):
     r = chk.rule('C05.d2', 'primaryexpr classifies a pp-number as floating or integer by its spelling, converts it in the base its prefix says, and tells inttype() "decimal" exactly for unprefixed constants (octal, hexadecimal and binary constants use the list that includes the unsigned types)',
                  floor=40, oracle='C11 6.4.4.1p1-5, 6.4.4.2; C23 binary constants')
@@ -1032,6 +1037,11 @@ def rule_literal_base(chk, prog, tier):
         CASES.append((lit, ('flt', ty)))
     for lit in ('1.5x', '1.5fl', '1.5ff', '0x1p3q'):
         CASES.append((lit, ('error',)))
+    # a constant that no integer type can hold (6.4.4p2), a hexadecimal floating constant without binary exponent (6.4.4.2p1)
+    for lit in ('0xffffffffffffffffff', '0x10000000000000000', '18446744073709551616u', '02000000000000000000000', '0b1' + '0' * 64, '0x1.0', '0x.8', '0x1.8f', '0X1.'):
+        CASES.append((lit, ('error',)))
+    for lit, base, off in (('0xffffffffffffffff', 16, 0), ('18446744073709551615', 10, 0), ('01777777777777777777777', 8, 0), ('0b' + '1' * 64, 2, 2)):
+        CASES.append((lit, ('int', base, off, int(base == 10), '')))
     def pyfloatend(lit):
         m = _re.match(r'^(0[xX][0-9a-fA-F]*\.?[0-9a-fA-F]*([pP][+-]?[0-9]+)?|[0-9]*\.?[0-9]*([eE][+-]?[0-9]+)?)', lit)
         return m.end()
@@ -1061,7 +1071,10 @@ def rule_literal_base(chk, prog, tier):
                 else: v = int(t2[:n], base) if n else 0
                 i2.store_ptr(endp, i2.padd(src, skip + n)) if hasattr(i2, 'store_ptr') else i2.assign(endp.obj, endp.path, i2.padd(src, skip + n), None)
                 i2.event('strtoull', off, base, v)
-                return v % 2 ** 64
+                if v >= 2 ** 64:      # C11 7.22.1.4p8: ULLONG_MAX is returned and errno is set to ERANGE
+                    eo = eai_errno(i2); eo.obj.f[()] = 34
+                    return 2 ** 64 - 1
+                return v
             def strtod(i2, a, e):
                 src, endp = a
                 n = pyfloatend(lit)
